@@ -59,11 +59,27 @@ contract(
 # =====================================================================================================
 # DecomposeComponentsIFilter.filter
 # =====================================================================================================
+_INCLUDED = z3.Function("c09_included", T.RefSort, z3.BoolSort())
+
+
+def _include_all(ex, st, self, args, kwargs, node):
+    """`self.include` of a filter built without include= / exclude=: `lambda g: True`.  Stated as a predicate that holds of every glyph (rather than
+    the constant): `any(include(g) for g in glyphs)` then mentions the list's elements, which gives the solvers something to instantiate
+    "no glyph is included" with (the constant leaves a purely arithmetic quantifier that they do not instantiate)."""
+    (g,) = args
+    r = z3.Const("r!inc", T.RefSort)
+    fact = z3.ForAll([r], _INCLUDED(r), patterns=[_INCLUDED(r)])
+    st.assume(fact)
+    for outer in getattr(ex, "qouter", []):  # the call sits inside a generator: the (definitional) fact belongs to the enclosing states too
+        outer.assume(fact)
+    return Val(BOOL, _INCLUDED(lift(g)))
+
+
 cls(
     "SXDIFilter",
     fields={"context": Ref("SXIContext")},
     derived=dict(_HEAP_VIEWS),
-    methods={"include": lambda ex, st, self, a, k, n: Val.const(True)},
+    methods={"include": _include_all},
     views={"context": lambda o: _NS(o.context), "heap_components": lambda o: _HeapSnapshot(o, "components"), "heap_glyphs": lambda o: _HeapSnapshot(o, "glyphs")},
     repo="ufo2ft.filters.decomposeComponents:DecomposeComponentsIFilter",
     notes="DecomposeComponentsIFilter instance",
@@ -266,36 +282,15 @@ CONTRACTS["ufo2ft._compilers.interpolatableTTFCompiler:InterpolatableTTFCompiler
 # =====================================================================================================
 # TTFInterpolatablePreProcessor.check_for_nonmatching_components: which composites have a 2x2 that differs between masters
 # =====================================================================================================
-# Two engine shims (requested in notes/C09.requests.md; both are pure extensions, every other case goes to the original code):
-#  (1) `f(*[<list comprehension>])`: Python unpacks the fully evaluated list, which is what it does for `f(*(<generator>))` too; the
-#      engine only hands the generator form to a model (`set.union` of contracts/c13.py), so the ListComp node is re-read as a GeneratorExp.
-#  (2) [gone: slice of a symbolic TUPLE value with constant bounds (`transformation[0:4]`) is native in the engine since 2026-10-02]
+# (two of the three engine shims this section carried — star-argument of a list comprehension, tuple slices — are native in the engine now)
 import ast as _ast  # noqa: E402
 
-from pyvc.ops import is_const as _is_const  # noqa: E402
 from pyvc.symex import Executor as _Ex  # noqa: E402
 
-if not getattr(_Ex.call, "_c09_shim", False):
-    _orig_call = _Ex.call
-
-    def _call(self, node, st):
-        if any(isinstance(a, _ast.Starred) and isinstance(a.value, _ast.ListComp) for a in node.args):
-            import copy as _copy
-
-            node2 = _copy.copy(node)
-            node2.args = [
-                _ast.copy_location(_ast.Starred(value=_ast.copy_location(_ast.GeneratorExp(elt=a.value.elt, generators=a.value.generators), a.value), ctx=a.ctx), a)
-                if isinstance(a, _ast.Starred) and isinstance(a.value, _ast.ListComp) else a
-                for a in node.args
-            ]
-            node = node2
-        return _orig_call(self, node, st)
-
-    _call._c09_shim = True
-    _Ex.call = _call
-
-#  (3) filtered list comprehension `[f(x) for x in xs if c(x)]`: the engine states it by MEMBERSHIP only (seq.contains), from which no back
-#      end derives a position.  For contracts that ask for it (`comp_positions = True` on the contract object) two Skolem functions are added:
+# Engine shim kept (notes/C09.requests.md item 3): filtered list comprehension `[f(x) for x in xs if c(x)]`.  The engine's own `comp_positions=True`
+# ADDS Skolem position functions to the membership encoding (seq.contains + exists); with both, `assert.hint@L539#2` of the contract below needs 15 s
+# and five solver attempts.  For contracts that ask for it (`comp_positions_only = True` on the contract object) the result is characterised by
+# the position maps ALONE:
 #      pos: passing source position -> result position, src: result position -> passing source position, mutually inverse and strictly
 #      increasing (which is exactly Python's semantics: the result is the sub-sequence of the passing elements, in order).
 from pyvc.core import fresh_name as _fresh_name  # noqa: E402
@@ -305,7 +300,7 @@ if not getattr(_Ex.seq_comprehension, "_c09_shim", False):
     _orig_seq_comprehension = _Ex.seq_comprehension
 
     def _seq_comprehension(self, node, g, info, st):
-        if not g.ifs or not getattr(self.c, "comp_positions", False):
+        if not g.ifs or not getattr(self.c, "comp_positions_only", False):
             return _orig_seq_comprehension(self, node, g, info, st)
         # same evaluation of filter and element as the engine's own code ...
         from pyvc.core import coerce as _coerce
@@ -497,7 +492,7 @@ contract(
         ),
     },
 )
-CONTRACTS["ufo2ft.preProcessor:TTFInterpolatablePreProcessor.check_for_nonmatching_components"].comp_positions = True
+CONTRACTS["ufo2ft.preProcessor:TTFInterpolatablePreProcessor.check_for_nonmatching_components"].comp_positions_only = True
 
 
 def _nm_cases(rng, n):
@@ -567,12 +562,13 @@ contract(
     returns=BOOL,
     calls={"ufo2ft.util:decomposeCompositeGlyph": "ufo2ft.util:decomposeCompositeGlyph#all"},
     globals={"zip_strict": _Ref("builtins.zip", zip, obj=zip)},
-    # (`glyphs` holds every master's glyph of that name — stated with a POSITION, the form the caller's proof produces)
-    requires=[_LEN_MATCH, f"all(implies(glyphName in gs.keyset, any(glyphs[k] == gs[glyphName] for k in range(len(glyphs)))) for gs in {_GSS})", _WELL_NAMED],
+    # (no precondition about `glyphs` here: that the caller hands over every master's glyph is what ITS post-condition "no component left in any
+    # master" needs and proves from its own list; the call-site obligation as such is part of the SXDIFilter variant above / of contracts/c13.py)
+    requires=[_LEN_MATCH, _WELL_NAMED],
     ensures={
         "acted-on-all-masters": f"implies(result, {_DECOMPOSED_ALL})",
         "declines-only-if-no-components": "implies(not result, all(len(g.components) == 0 for g in glyphs))",
-        # (the `idle` clause of the SXDIFilter variant is left out here: this variant is the summary that __call__ sees, kept lean)
+        "idle": "implies(not result, self.heap_components == old(self.heap_components) and self.heap_glyphs == old(self.heap_glyphs))",
         "grow-only-this-name": c13._GROW,
         "others": _NAMED_OTHERS,
         "well-named": _WELL_NAMED,
@@ -599,7 +595,411 @@ contract(
 )
 CONTRACTS["ufo2ft.filters.decomposeComponents:DecomposeComponentsIFilter.filter#framed"].runtime = Runtime(_fam_cases, _b_dfilter)
 
-# NOT REGISTERED (attempt kept in notes/C09.md): `BaseIFilter.__call__` on a DecomposeComponentsIFilter with the post-state "no glyph of any master
-# has a component left".  With the engine's conditional call effects the function is executable and the loop invariants (done / covered /
-# well-named / todo-unreported) are the right ones, but on the path where `any(include(g) ..) and filter_(..)` is false the heap is
-# ite(<exists-guard>, after, before) and every solver configuration returns unknown even for goals that are literally a callee ensure.
+@trusted("c09.sorted_by_key", "sorted(S, key=f) of a set S: some duplicate-free enumeration of S (the order itself is left arbitrary: over-approximation); "
+         "every member sits at a position (Skolem function)")
+def _sorted_by_key(ex, st, args, kwargs, node):
+    """Like c13's model, but the set gets a NAME (`<target>__set` in the environment, equal to the argument): the argument is a lambda term whose
+    membership test is beta-reduced to an existential, on which the member -> position fact can never be triggered."""
+    from pyvc import models as _models
+
+    (v,) = args
+    if not isinstance(v.ty, T.Set):
+        raise Unsupported("sorted(key=) of a non-set", node)
+    A = fresh(v.ty, "sortedset")
+    xa = fresh(STR, "sx")
+    # A == the argument, stated member-wise and triggered on membership in A only (the plain array equation with a lambda that contains an
+    # existential sends the solvers' model-based instantiation astray)
+    st.assume(z3.ForAll([xa], z3.Select(A, xa) == z3.Select(lift(v), xa), patterns=[z3.Select(A, xa)]))
+    r = _models.set_iteration_order(st, Val(v.ty, A))
+    pos = z3.Function(fresh_name("pos"), z3.StringSort(), z3.IntSort())
+    x = fresh(STR, "px")
+    st.assume(z3.ForAll([x], z3.Implies(z3.Select(A, x), z3.And(pos(x) >= 0, pos(x) < z3.Length(r.term), r.term[pos(x)] == x)), patterns=[z3.Select(A, x)]))
+    a = z3.Int(fresh_name("pa"))
+    st.assume(z3.ForAll([a], z3.Implies(z3.And(a >= 0, a < z3.Length(r.term)), z3.Select(A, r.term[a]))))
+    st.env["sorted__set"] = Val(v.ty, A)
+    return r
+
+
+_DF = "ufo2ft.filters.decomposeComponents:DecomposeComponentsIFilter.filter"
+_ICALL_PARAMS = {"self": Ref("SXDIFilter"), "fonts": List(Ref("SXFont")), "glyphSets": List(Ref("SXGlyphSet")), "instantiator": Opt(Ref("SXInstantiator"))}
+_ICALL_REQUIRES = [
+    "len(fonts) == len(glyphSets)", "len(fonts) > 0",
+    "implies(instantiator is not None, len(instantiator.interpolated_layers) == len(glyphSets))",
+]
+
+contract(
+    "ufo2ft.filters.base:BaseIFilter.set_context",
+    name="SXDIFilter",
+    props=["C09"],
+    params=_ICALL_PARAMS,
+    returns=Ref("SXIContext"),
+    globals=c13._IHELPERS,
+    requires=_ICALL_REQUIRES[:2],
+    ensures={
+        "context": "self.context == result and self.context.glyphSets == glyphSets and self.context.instantiator == instantiator",
+        "modified-empty": "all(False for n in self.context.modified)",
+    },
+    canaries={"drops-instantiator": "self.context.instantiator is None"},
+    modifies=c13._ICTX_MOD[:0] + ["SXDIFilter.context"] + c13._ICTX_MOD[1:],
+)
+
+_ALL_SIMPLE = "all(all(len(gs[n].components) == 0 for n in gs.keyset) for gs in glyphSets)"
+_NAMED_G = "all(all(gs[n].name == n for n in gs.keyset) for gs in glyphSets)"
+contract(
+    "ufo2ft.filters.base:BaseIFilter.__call__",
+    name="SXDIFilter",
+    props=["C09"],
+    params=_ICALL_PARAMS,
+    returns=Set(STR),
+    globals={**{k: v for k, v in c13._IHELPERS.items() if k != "set"}, "sorted": _Ref("c09.sorted_by_key", sorted)},
+    calls={_DF + "#SXDIFilter": _DF + "#framed"},
+    hints={
+        # whatever the branch: afterwards the glyph of THIS name has no component in any master
+        "if any((include(g) for g in glyphs)) and filter_(glyphName, glyphs):": [
+            "all(implies(glyphName in gs.keyset, len(gs[glyphName].components) == 0) for gs in glyphSets)",
+        ],
+        "orderedGlyphs = sorted(allGlyphNames, key=comp_depth)": [
+            "all(all(n in sorted__set for n in gs.keyset) for gs in glyphSets)",
+            "all(all(any(orderedGlyphs[k] == n for k in range(len(orderedGlyphs))) for n in gs.keyset) for gs in glyphSets)",
+        ]
+    },
+    requires=_ICALL_REQUIRES + [_NAMED_G],  # every glyph carries the name it is stored under (layers / _GlyphSet.from_layer)
+    ensures={
+        "context": "self.context.glyphSets == glyphSets and self.context.instantiator == instantiator",
+        # THE joint action, end to end: after the interpolatable decompose filter (include = every glyph: the OTF interpolatable default filter)
+        # no glyph of ANY master has a component left — the decision is never taken for one master alone
+        "no-component-in-any-master": _ALL_SIMPLE,
+        "well-named": _NAMED_G,
+    },
+    canaries={"reports-something": "any(True for n in result)", "no-glyph-left": "all(all(False for n in gs.keyset) for gs in glyphSets)"},
+    modifies=["SXDIFilter.context"] + c13._ICTX_MOD[1:] + ["SXGlyph.components", "SXGlyph.ncontours", "SXGlyphSet.glyphs"],
+    locals={"modified": Set(STR)},
+    loops={
+        "for glyphName in orderedGlyphs": Loop(
+            index="i",
+            invariants={
+                "context": "self.context.glyphSets == glyphSets and self.context.instantiator == instantiator",
+                "well-named": _NAMED_G,
+                # every name of every master sits at a position of the processing order (glyph sets only gain the name being processed)
+                "covered": "all(all(any(orderedGlyphs[k] == n for k in range(len(orderedGlyphs))) for n in gs.keyset) for gs in glyphSets)",
+                "todo-unreported": "all(orderedGlyphs[b] not in modified for b in range(i, len(orderedGlyphs)))",
+                "done": "all(all(implies(orderedGlyphs[a] in gs.keyset, len(gs[orderedGlyphs[a]].components) == 0) for gs in glyphSets) for a in range(i))",
+            },
+        )
+    },
+    merge_branches=False,
+)
+CONTRACTS["ufo2ft.filters.base:BaseIFilter.__call__#SXDIFilter"].comp_positions = True  # `glyphs = [... if glyphName in glyphSet]` by position maps
+
+
+# ---- the same for a DecomposeComponentsIFilter built with include=<set of glyph names> (what TTFInterpolatablePreProcessor.process does) ---------
+def _include_only(ex, st, self, args, kwargs, node):
+    """`self.include` of a filter built with include=<names>: BaseFilter._check_include_exclude makes it `lambda g: g.name in names`"""
+    (g,) = args
+    only = lift(ex.read_field(st, self, "only"))
+    return Val(BOOL, z3.Select(only, lift(ex.read_field(st, g, "name"))))
+
+
+cls(
+    "SXDOFilter",
+    fields={"context": Ref("SXIContext"), "only": Set(STR)},
+    derived=dict(_HEAP_VIEWS),
+    methods={"include": _include_only},
+    views={"context": lambda o: _NS(o.context), "heap_components": lambda o: _HeapSnapshot(o, "components"), "heap_glyphs": lambda o: _HeapSnapshot(o, "glyphs"),
+           "only": lambda o: _OnlyNames(o)},
+    repo="ufo2ft.filters.decomposeComponents:DecomposeComponentsIFilter",
+    notes="DecomposeComponentsIFilter(include=<set of names>) instance: `only` = that set (include(g) == g.name in only)",
+)
+
+
+class _OnlyNames:
+    """run-time value of SXDOFilter.only: membership = what the filter's include predicate says of a glyph of that name"""
+
+    def __init__(self, flt):
+        self.flt = flt
+
+    def __contains__(self, n):
+        import ufoLib2
+
+        return bool(self.flt.include(ufoLib2.objects.Glyph(n)))
+
+    def __deepcopy__(self, memo):
+        return self
+
+    def __eq__(self, o):  # the predicate of the same filter object (it is installed by the constructor and never re-assigned)
+        return isinstance(o, _OnlyNames) and o.flt is self.flt and o.flt.include is self.flt.include
+
+    def __hash__(self):
+        return id(self.flt)
+
+
+ifilter_summaries("SXDOFilter", False)
+_fr = CONTRACTS[_DF + "#framed"]
+contract(
+    _DF, name="framedO", props=["C09"],
+    params={**_fr.params, "self": Ref("SXDOFilter")}, returns=BOOL, calls=dict(_fr.calls), globals=dict(_fr.globals), requires=list(_fr.requires),
+    ensures=dict(_fr.ensures), canaries=dict(_fr.canaries), modifies=list(_fr.modifies), ghost_vars=dict(_fr.ghost_vars), ghost=dict(_fr.ghost),
+    hints=dict(_fr.hints), loops={k: Loop(index=v.index, invariants=dict(v.invariants)) for k, v in _fr.loops.items()}, merge_branches=False,
+    notes="the `framed` variant for a receiver built with include=<names> (the body does not consult include)",
+)
+_ICALL_PARAMS_O = {**_ICALL_PARAMS, "self": Ref("SXDOFilter")}
+contract(
+    "ufo2ft.filters.base:BaseIFilter.set_context",
+    name="SXDOFilter",
+    props=["C09"],
+    params=_ICALL_PARAMS_O,
+    returns=Ref("SXIContext"),
+    globals=c13._IHELPERS,
+    requires=_ICALL_REQUIRES[:2],
+    ensures={
+        "context": "self.context == result and self.context.glyphSets == glyphSets and self.context.instantiator == instantiator",
+        "modified-empty": "all(False for n in self.context.modified)",
+    },
+    canaries={"drops-instantiator": "self.context.instantiator is None"},
+    modifies=["SXDOFilter.context"] + c13._ICTX_MOD[1:],
+)
+_ONLY_SIMPLE = "all(all(implies(n in self.only, len(gs[n].components) == 0) for n in gs.keyset) for gs in glyphSets)"
+_ELSE_KEPT = "all(all(implies(n not in self.only, self.heap_components[gs[n]] == {H}[gs[n]]) for n in gs.keyset) for gs in glyphSets)"
+contract(
+    "ufo2ft.filters.base:BaseIFilter.__call__",
+    name="SXDOFilter",
+    props=["C09"],
+    params=_ICALL_PARAMS_O,
+    returns=Set(STR),
+    globals={**{k: v for k, v in c13._IHELPERS.items() if k != "set"}, "sorted": _Ref("c09.sorted_by_key", sorted)},
+    calls={_DF + "#SXDOFilter": _DF + "#framedO"},
+    hints={
+        "glyphs = [glyphSet[glyphName] for glyphSet in glyphSets if glyphName in glyphSet]": ["all(glyphs[k].name == glyphName for k in range(len(glyphs)))"],
+        "if any((include(g) for g in glyphs)) and filter_(glyphName, glyphs):": [
+            "implies(glyphName in self.only, all(implies(glyphName in gs.keyset, len(gs[glyphName].components) == 0) for gs in glyphSets))",
+            _ELSE_KEPT.format(H="HC0"),
+        ],
+        "orderedGlyphs = sorted(allGlyphNames, key=comp_depth)": [
+            "all(all(n in sorted__set for n in gs.keyset) for gs in glyphSets)",
+            "all(all(any(orderedGlyphs[k] == n for k in range(len(orderedGlyphs))) for n in gs.keyset) for gs in glyphSets)",
+        ],
+    },
+    requires=_ICALL_REQUIRES + [_NAMED_G],
+    ensures={
+        "context": "self.context.glyphSets == glyphSets and self.context.instantiator == instantiator",
+        # the same decision and the same action for the glyph of a name in EVERY master: decomposed everywhere if the name is included ...
+        "included-names-decomposed-in-all-masters": _ONLY_SIMPLE,
+        # ... and left alone everywhere if it is not
+        "other-names-untouched": _ELSE_KEPT.format(H="old(self.heap_components)"),
+        "well-named": _NAMED_G,
+        "only-kept": "self.only == old(self.only)",
+    },
+    canaries={"decomposes-everything": _ALL_SIMPLE, "reports-something": "any(True for n in result)"},
+    modifies=["SXDOFilter.context"] + c13._ICTX_MOD[1:] + ["SXGlyph.components", "SXGlyph.ncontours", "SXGlyphSet.glyphs"],
+    locals={"modified": Set(STR)},
+    ghost_vars={"HC0": (Map(Ref("SXGlyph"), List(Ref("SXComponent"))), "self.heap_components")},
+    loops={
+        "for glyphName in orderedGlyphs": Loop(
+            index="i",
+            invariants={
+                "context": "self.context.glyphSets == glyphSets and self.context.instantiator == instantiator",
+                "well-named": _NAMED_G,
+                "covered": "all(all(any(orderedGlyphs[k] == n for k in range(len(orderedGlyphs))) for n in gs.keyset) for gs in glyphSets)",
+                "todo-unreported": "all(orderedGlyphs[b] not in modified for b in range(i, len(orderedGlyphs)))",
+                "done": "all(all(implies(orderedGlyphs[a] in gs.keyset and orderedGlyphs[a] in self.only, len(gs[orderedGlyphs[a]].components) == 0) for gs in glyphSets) for a in range(i))",
+                "untouched": _ELSE_KEPT.format(H="HC0"),
+            },
+        )
+    },
+    merge_branches=False,
+)
+CONTRACTS["ufo2ft.filters.base:BaseIFilter.__call__#SXDOFilter"].comp_positions = True
+
+
+def _b_dcall(d):
+    from ufo2ft.filters.decomposeComponents import DecomposeComponentsIFilter
+
+    ufos, gss, inst = c13rt.glyph_sets(d)
+    return {"self": DecomposeComponentsIFilter(), "fonts": ufos, "glyphSets": gss, "instantiator": inst}
+
+
+CONTRACTS["ufo2ft.filters.base:BaseIFilter.set_context#SXDIFilter"].runtime = Runtime(_fam_cases, _b_dcall, call=c13._call_positional)
+CONTRACTS["ufo2ft.filters.base:BaseIFilter.__call__#SXDIFilter"].runtime = Runtime(_fam_cases, _b_dcall, call=c13._call_positional)
+
+
+# =====================================================================================================
+# The pre-processor side: _update_instantiator / _run_interpolatable (BaseInterpolatablePreProcessor)
+# =====================================================================================================
+from . import c19 as _c19  # noqa: E402  (Location / Variator vocabulary)
+from .c19b import _ref as _fnref  # noqa: E402
+
+SXLAYERS = List(Tuple(Ref("Location"), Ref("SXGlyphSet")))
+# the Instantiator as the pre-processor sees it: (location, glyph set) pairs + the glyph-model cache (contracts/c13.py declares the class with its
+# `interpolated_layers` only; the methods called on it resolve to contracts of the real class)
+CLASSES["SXInstantiator"].fields.update({"source_layers": SXLAYERS, "glyph_mutators": Dict(STR, Ref("Variator"))})
+CLASSES["SXInstantiator"].repo = "ufo2ft.instantiator:Instantiator"
+CLASSES["SXInstantiator"].views.update({"glyph_mutators": lambda o: dict(o.glyph_mutators)})
+CLASSES["SXTTFPre"].fields.update({"ufos": List(Ref("SXFont")), "instantiator": Opt(Ref("SXInstantiator"))})
+
+_SL = "self.source_layers"
+contract(
+    "ufo2ft.instantiator:Instantiator.replace_source_layers",
+    name="SXInstantiator",
+    props=["C09"],
+    params={"self": Ref("SXInstantiator"), "new_layers": List(Ref("SXGlyphSet"))},
+    globals={"zip_strict": _fnref("c19.zip_strict", zip)},
+    raises={"ValueError": f"len(new_layers) != len({_SL})"},
+    ensures={
+        "layers-replaced": f"len({_SL}) == len(old({_SL})) and all({_SL}[a][0] is old({_SL})[a][0] and {_SL}[a][1] is new_layers[a] for a in range(len(new_layers)))",
+        "cache-cleared": "len(self.glyph_mutators) == 0",
+    },
+    canaries={"keeps-the-layers": f"all({_SL}[a][1] is old({_SL})[a][1] for a in range(len(new_layers)))"},
+    modifies=["self.source_layers", "self.glyph_mutators"],
+    notes="the same body as contracts/c19b.py verifies, in the glyph-set vocabulary of the interpolatable filters (its callers here hand over self.glyphSets)",
+)
+
+_INST = "self.instantiator"
+_IN_SYNC = f"implies({_INST} is not None, len({_INST}.source_layers) == len(self.glyphSets) and all({_INST}.source_layers[a][1] is self.glyphSets[a] for a in range(len(self.glyphSets))))"
+
+contract(
+    "ufo2ft.preProcessor:BaseInterpolatablePreProcessor._update_instantiator",
+    name="SXTTFPre",
+    props=["C09"],
+    params={"self": Ref("SXTTFPre")},
+    # __init__ raises ValueError unless the instantiator has one source layer per UFO (= per glyph set); replace_source_layers keeps the number
+    requires=[f"implies({_INST} is not None, len({_INST}.source_layers) == len(self.glyphSets))"],
+    ensures={
+        # the instantiator interpolates from THESE glyph sets (the very objects the filters edit), and from no cached model of older glyph data
+        "in-sync": _IN_SYNC,
+        "cache-cleared": f"implies({_INST} is not None, len({_INST}.glyph_mutators) == 0)",
+        "same-locations": f"implies({_INST} is not None, all({_INST}.source_layers[a][0] is old({_INST}.source_layers)[a][0] for a in range(len(self.glyphSets))))",
+    },
+    canaries={"has-instantiator": f"{_INST} is not None"},
+    modifies=["SXInstantiator.source_layers", "SXInstantiator.glyph_mutators"],
+)
+
+_PRE_WELLNAMED = "all(all(gs[n].name == n for n in gs.keyset) for gs in self.glyphSets)"
+_PRE_SIMPLE = "all(all(len(gs[n].components) == 0 for n in gs.keyset) for gs in self.glyphSets)"
+_RUN_REQUIRES = [
+    "len(self.ufos) == len(self.glyphSets) and len(self.ufos) > 0",  # __init__: one glyph set per UFO, zip_strict
+    f"implies({_INST} is not None, len({_INST}.source_layers) == len(self.glyphSets) and len({_INST}.interpolated_layers) == len(self.glyphSets))",
+    _PRE_WELLNAMED,
+    _IN_SYNC,  # class invariant since /repo 0fe4fa4: __init__ calls _update_instantiator() right after building the glyph sets
+]
+
+contract(
+    "ufo2ft.preProcessor:BaseInterpolatablePreProcessor._run_interpolatable",
+    name="decompose",
+    props=["C09"],
+    params={"self": Ref("SXTTFPre"), "filter_": Ref("SXDIFilter")},
+    returns=Set(STR),
+    requires=_RUN_REQUIRES,
+    ensures={
+        # the filter is run ONCE on all glyph sets together: afterwards no glyph of any master has a component
+        "no-component-in-any-master": _PRE_SIMPLE,
+        "well-named": _PRE_WELLNAMED,
+        # the instantiator still interpolates from these very glyph sets, and whenever something was modified, from no cached model
+        "in-sync": _IN_SYNC,
+        "cache-cleared-if-modified": f"implies({_INST} is not None and any(True for n in result), len({_INST}.glyph_mutators) == 0)",
+        "same-glyph-sets": "self.glyphSets == old(self.glyphSets) and self.instantiator == old(self.instantiator)",
+    },
+    canaries={"always-modified": "any(True for n in result)"},
+    modifies=["SXDIFilter.context"] + c13._ICTX_MOD[1:] + ["SXGlyph.components", "SXGlyph.ncontours", "SXGlyphSet.glyphs", "SXInstantiator.source_layers", "SXInstantiator.glyph_mutators"],
+)
+
+
+def _pre_cases(rng, n):
+    return c13rt.family_cases(rng, n, skip=False)
+
+
+def _b_pre(d):
+    from ufo2ft.instantiator import Instantiator
+    from ufo2ft.preProcessor import TTFInterpolatablePreProcessor
+
+    ufos, layer_names, ds = c13rt.build_family(d)
+    inst = Instantiator.from_designspace(ds, round_geometry=False, do_info=False, do_kerning=False) if d.get("instantiator") else None
+    return TTFInterpolatablePreProcessor(ufos, layerNames=layer_names, instantiator=inst)
+
+
+def _b_update(d):
+    pp = _b_pre(d)
+    if pp.instantiator is not None:  # warm the cache, then edit a glyph set behind the instantiator's back
+        for name in list(pp.glyphSets[0])[:2]:
+            try:
+                pp.instantiator.generate_glyph_instance(name, pp.instantiator.normalize(pp.instantiator.default_design_location))
+            except Exception:  # noqa
+                pass
+    return {"self": pp}
+
+
+def _b_run_decompose(d):
+    from ufo2ft.filters.decomposeComponents import DecomposeComponentsIFilter
+
+    return {"self": _b_pre(d), "filter_": DecomposeComponentsIFilter()}
+
+
+def _b_replace_sx(d):
+    pp = _b_pre({**d, "instantiator": True})
+    return {"self": pp.instantiator, "new_layers": [dict(gs) for gs in pp.glyphSets][: len(pp.glyphSets) - (1 if d.get("target", "").endswith("1") else 0)]}
+
+
+CONTRACTS["ufo2ft.preProcessor:BaseInterpolatablePreProcessor._update_instantiator#SXTTFPre"].runtime = Runtime(_pre_cases, _b_update)
+CONTRACTS["ufo2ft.preProcessor:BaseInterpolatablePreProcessor._run_interpolatable#decompose"].runtime = Runtime(_pre_cases, _b_run_decompose)
+CONTRACTS["ufo2ft.instantiator:Instantiator.replace_source_layers#SXInstantiator"].runtime = Runtime(_pre_cases, _b_replace_sx)
+
+
+def _only_cases(rng, n):
+    out = []
+    for d in c13rt.family_cases(rng, n, skip=False):
+        names = sorted(d["masters"][0]["glyphs"])
+        d["only"] = sorted(rng.sample(names, rng.randint(0, len(names))))
+        out.append(d)
+    return out
+
+
+def _b_ocall(d):
+    from ufo2ft.filters.decomposeComponents import DecomposeComponentsIFilter
+
+    ufos, gss, inst = c13rt.glyph_sets(d)
+    flt = DecomposeComponentsIFilter(include=set(d["only"]))
+    flt.set_context(ufos, gss, inst)  # only so that the run-time heap views (which go through filter.context) exist in the pre-state; __call__ sets it anew
+    return {"self": flt, "fonts": ufos, "glyphSets": gss, "instantiator": inst}
+
+
+def _b_ofilter(d):
+    a = _b_ocall(d)
+    name = d["target"]
+    return {"self": a["self"], "glyphName": name, "glyphs": [gs[name] for gs in a["glyphSets"] if name in gs]}
+
+
+CONTRACTS[_DF + "#framedO"].runtime = Runtime(_only_cases, _b_ofilter)
+CONTRACTS["ufo2ft.filters.base:BaseIFilter.set_context#SXDOFilter"].runtime = Runtime(_only_cases, _b_ocall, call=c13._call_positional)
+CONTRACTS["ufo2ft.filters.base:BaseIFilter.__call__#SXDOFilter"].runtime = Runtime(_only_cases, _b_ocall, call=c13._call_positional)
+
+_PRE_ONLY_SIMPLE = "all(all(implies(n in filter_.only, len(gs[n].components) == 0) for n in gs.keyset) for gs in self.glyphSets)"
+_PRE_ELSE_KEPT = "all(all(implies(n not in filter_.only, self.heap_components[gs[n]] == old(self.heap_components)[gs[n]]) for n in gs.keyset) for gs in self.glyphSets)"
+contract(
+    "ufo2ft.preProcessor:BaseInterpolatablePreProcessor._run_interpolatable",
+    name="decompose-only",
+    props=["C09"],
+    params={"self": Ref("SXTTFPre"), "filter_": Ref("SXDOFilter")},
+    returns=Set(STR),
+    requires=_RUN_REQUIRES,
+    ensures={
+        "included-names-decomposed-in-all-masters": _PRE_ONLY_SIMPLE,
+        "other-names-untouched": _PRE_ELSE_KEPT,
+        "well-named": _PRE_WELLNAMED,
+        "in-sync": _IN_SYNC,
+        "cache-cleared-if-modified": f"implies({_INST} is not None and any(True for n in result), len({_INST}.glyph_mutators) == 0)",
+        "same-glyph-sets": "self.glyphSets == old(self.glyphSets) and self.instantiator == old(self.instantiator) and filter_.only == old(filter_.only)",
+    },
+    canaries={"always-modified": "any(True for n in result)", "decomposes-everything": _PRE_SIMPLE},
+    modifies=["SXDOFilter.context"] + c13._ICTX_MOD[1:] + ["SXGlyph.components", "SXGlyph.ncontours", "SXGlyphSet.glyphs", "SXInstantiator.source_layers", "SXInstantiator.glyph_mutators"],
+)
+
+
+def _b_run_only(d):
+    from ufo2ft.filters.decomposeComponents import DecomposeComponentsIFilter
+
+    pp = _b_pre(d)
+    flt = DecomposeComponentsIFilter(include=set(d["only"]))
+    flt.set_context(pp.ufos, pp.glyphSets, pp.instantiator)
+    return {"self": pp, "filter_": flt}
+
+
+CONTRACTS["ufo2ft.preProcessor:BaseInterpolatablePreProcessor._run_interpolatable#decompose-only"].runtime = Runtime(_only_cases, _b_run_only)
